@@ -240,6 +240,23 @@ def run(repo, rep, tier):
         if f is None:
             raise AnalysisError('MOFCompiler.%s vanished' % n)
         entries.append(f)
+    # compiler methods the grammar actions reach through p.parser.mofcomp
+    # (the resolver does not follow that attribute): judged as entry points
+    # of their own
+    via_mofcomp = []
+    for a_ in actions:
+        for c_ in walk_no_nested(a_.node):
+            if isinstance(c_, ast.Call):
+                d_ = dotted(c_.func) or ''
+                if '.mofcomp.' in d_:
+                    m_ = mc.methods.get(d_.split('.')[-1])
+                    if m_ is not None and m_ not in via_mofcomp and \
+                            m_ not in entries:
+                        via_mofcomp.append(m_)
+    if not via_mofcomp:
+        raise AnalysisError('no p.parser.mofcomp.<method>() call in the '
+                            'grammar actions (find_mof anchor moved)')
+    entries = entries + via_mofcomp
     ea.solve(entries + actions)
     # everything escaping an action escapes compile_string (its only
     # handler re-raises MOFCompileError): judge each action's own summary,
